@@ -24,6 +24,10 @@ pub enum Target
     /// `World::syscall_once(x, f)`: runs `f` on fresh state that is not cached; the state cached for `Sys(0)` is
     /// neither used nor touched.
     SysOnce,
+    /// A third ordinary function h (unit output, as the `Commands` extension requires), called directly
+    /// (`syscall(world, x, h)`, `false`) or through `Commands::syscall(x, h)` followed by a flush (`true`): one key, two
+    /// entry points.
+    SysH(bool),
 }
 
 /// A top-level call and the chain of nested calls made from queued commands (each from the previous one's command).
@@ -82,6 +86,10 @@ fn sys_g(In(x): In<u32>, mut local: Local<u32>, mut set: ParamSet<(Commands, Que
     let mut c = set.p0();
     body(1, x, &mut local, added, &mut c)
 }
+fn sys_h(In(x): In<u32>, mut local: Local<u32>, q: Query<(), Added<Marker>>, mut c: Commands)
+{
+    body(4, x, &mut local, q.iter().count() as u32, &mut c);
+}
 /// Exclusive flavour: its parameter state (`Local`, `QueryState`) is rebuilt by Bevy whenever the system is initialised
 /// again, and its commands go through the world's own queue.
 fn sys_x(In(x): In<u32>, world: &mut World, mut local: Local<u32>, q: &mut QueryState<(), Added<Marker>>) -> u32
@@ -122,6 +130,8 @@ fn call(world: &mut World, t: Target, x: u32)
             spawned_syscall::<In<u32>, u32>(world, id, x).ok()
         }
         Target::SysOnce => Some(world.syscall_once(x, sys_f)),
+        Target::SysH(false) => { syscall(world, x, sys_h); None }
+        Target::SysH(true) => { world.commands().syscall(x, sys_h); world.flush(); None }
     };
     LOG.with(|l| l.borrow_mut().push(Rec::Ret{ target: t, result }));
 }
@@ -143,7 +153,7 @@ pub struct Model17
 
 fn func_of(t: Target) -> u8
 {
-    match t { Target::Sys(f) => f.min(2), Target::Named(_, f) => f.min(2), Target::Spawned(i) => i.min(3), Target::SpawnedMissing => 0, Target::SysOnce => 0 }
+    match t { Target::Sys(f) => f.min(2), Target::Named(_, f) => f.min(2), Target::Spawned(i) => i.min(3), Target::SpawnedMissing => 0, Target::SysOnce => 0, Target::SysH(_) => 4 }
 }
 
 impl Model17
@@ -172,7 +182,9 @@ impl Model17
             }
             _ => {}
         }
-        let recursive = active.contains(&t) || t == Target::SysOnce;
+        // the `Commands` flavour shares its key (and therefore its state) with the direct flavour of the same function
+        let key = if let Target::SysH(_) = t { Target::SysH(false) } else { t };
+        let recursive = active.contains(&key) || t == Target::SysOnce;
         let exclusive = func_of(t) == 2;
         let markers = self.applied;
         let (local, added) = if recursive
@@ -182,10 +194,10 @@ impl Model17
         }
         else
         {
-            let c = self.counters.entry(t).or_insert(0);
+            let c = self.counters.entry(key).or_insert(0);
             *c += 1;
-            let seen = self.seen.get(&t).copied().unwrap_or(0);
-            if !exclusive { self.seen.insert(t, markers); }
+            let seen = self.seen.get(&key).copied().unwrap_or(0);
+            if !exclusive { self.seen.insert(key, markers); }
             (*c, markers - seen)
         };
         log.push(Rec::Run{ func: func_of(t), local, input: x, added });
@@ -193,12 +205,12 @@ impl Model17
         // the run's command is applied before the call returns, and makes the nested call
         self.applied += 1;
         log.push(Rec::Applied);
-        active.push(t);
+        active.push(key);
         self.call(rest, active, log);
         active.pop();
         // an exclusive system's cursor moves to the point of its return
-        if exclusive && !recursive { let m = self.applied; self.seen.insert(t, m); }
-        log.push(Rec::Ret{ target: t, result: Some(local * 1000 + x) });
+        if exclusive && !recursive { let m = self.applied; self.seen.insert(key, m); }
+        log.push(Rec::Ret{ target: t, result: if let Target::SysH(_) = t { None } else { Some(local * 1000 + x) } });
     }
 }
 
@@ -295,7 +307,7 @@ pub fn targets() -> Vec<Target>
     vec![
         Target::Sys(0), Target::Sys(1), Target::Sys(2), Target::Named(0, 0), Target::Named(1, 0), Target::Named(0, 1),
         Target::Named(0, 2), Target::Spawned(0), Target::Spawned(1), Target::Spawned(2), Target::Spawned(3), Target::SpawnedMissing,
-        Target::SysOnce,
+        Target::SysOnce, Target::SysH(false), Target::SysH(true),
     ]
 }
 
